@@ -6,6 +6,7 @@ clock before control returns; stamps are taken from the clock only; (R3) `cc` is
 clock only on a first call, is saved with the choice point, and on re-entry by backtracking is
 reloaded from the choice point BEFORE the first liveness test. Not the answer sequences.
 """
+import json
 import re
 
 from .core import AnchorLost, CFG, callee_of, hir_calls, matches_in, pat_leaves, pat_variant, res_name, short, walk
@@ -136,6 +137,7 @@ def run(ctx, R):
     # the saved position inside a first-argument choice sequence advances from the entry executed (dead clauses skipped)
     from . import orframe
     orframe.inner_index_advance(F, R, "C09")
+    dynamic_lines_keep_their_place(F, R)
 
     # ---- R1: liveness predicate clones, crate-wide --------------------------------------------------------
     n_sites = 0
@@ -408,3 +410,47 @@ def _candidate_test(n):
         if y["k"] == "Binary" and y["op"] in ("Eq", "Ne") and any(z["k"] == "MethodCall" and z["name"] == "switch_on_term_loc" for z in walk(y)):
             return True
     return False
+
+
+def dynamic_lines_keep_their_place(F, R):
+    """A call iterating the clauses of one first-argument key saves the LINE of the key's choice sequence in its choice
+    point (oip). Lines of a dynamic predicate's indexing code may therefore never move. The only movers are the two
+    internalize_* helpers, which swap a choice sequence that SwitchOnTerm points at directly behind a new hash table; that
+    shape must not exist for dynamic predicates: DynamicCodeIndices::switch_on emits the table as soon as one key has a
+    choice sequence."""
+    movers = {}
+    for p, it in sorted(F.items.items()):
+        if it["file"] != "src/indexing.rs" or it["kind"] not in ("Fn", "AssocFn"):
+            continue
+        for x in walk(F.hir(p)["body"]):
+            if x["k"] == "MethodCall" and x["name"] in ("swap", "insert", "remove", "swap_remove", "rotate_left", "rotate_right") \
+                    and x["recv"].get("k") == "Field" and x["recv"].get("name") == "indexing_code":
+                movers.setdefault(short(p), []).append(x["name"])
+    R.floor("functions that reorder indexing lines", len(movers), 2)
+    for fn, ops in sorted(movers.items()):
+        R.ob("C09:dynamic-index:line-mover:%s" % fn, re.search(r"::internalize_(constant|structure)$", fn) is not None,
+             "%s reorders the lines of an indexing instruction (%s): only internalize_constant/internalize_structure may, and only for the shape that "
+             "DynamicCodeIndices::switch_on no longer produces" % (fn, ops), fn)
+    so = [p for p in F.items if p.endswith("<indexing::DynamicCodeIndices as indexing::Indexer>::switch_on")]
+    if len(so) != 1:
+        raise AnchorLost("DynamicCodeIndices::switch_on (%d)" % len(so))
+    body = F.hir(so[0])["body"]
+    emit = [n for n in walk(body) if n["k"] == "If" and any(y["k"] == "MethodCall" and y["name"] == "push_front" for y in walk(n["then"]))]
+    if len(emit) != 1:
+        raise AnchorLost("DynamicCodeIndices::switch_on: the `if` that emits the table (%d)" % len(emit))
+    cond = emit[0]["cond"]
+
+    def mentions_internal(n, depth=0):
+        for y in walk(n):
+            if "IndexingCodePtr::Internal" in json.dumps({k: v for k, v in y.items() if isinstance(v, (str, dict)) and k in ("res", "ctor", "callee", "path", "variant")}):
+                return True
+            if y["k"] == "Path" and depth < 3:
+                nm = res_name(y)
+                for z in walk(body):
+                    if z["k"] == "Let" and z["pat"]["k"] == "PBind" and z["pat"]["name"] == nm and "init" in z and mentions_internal(z["init"], depth + 1):
+                        return True
+        return False
+    R.ob("C09:dynamic-index:choice-sequence-always-behind-a-table", mentions_internal(cond),
+         "DynamicCodeIndices::switch_on emits the hash table only when there are two keys: a consulted `:- dynamic(v/1). v(a). v(a).` then has its choice sequence "
+         "on line 1, the first assertz of another key swaps it to the end, and a call that was iterating v(a) re-enters the switch for ever "
+         "((v(a), assertz(v(b)), fail ; true) does not terminate)", F.where(so[0]))
